@@ -53,6 +53,10 @@ RULE = ('tables of 2-6 columns x 30-300 rows drawn from a Gaussian copula: a ran
         'tables, constant-zoo tables (exact reproduction, integers compared as Python ints), tables of option-carrying '
         'instances (sampled KDE cells checked against an INDEPENDENT weighted kernel cdf), a row-ordered two-mode table '
         'with a selection_sample_size selector (selected family must be near-best on the full column), '
+        'fall-back tables (2-3 columns whose requested marginal raises in fit — a class refusing non-positive columns, '
+        'GaussianKDE instances with wrong-length weights — next to normally fitted ones: distinct univariate objects, '
+        'fall-back fitted on its own column, fall-back only when the requested fit really raises), per-column dicts '
+        'naming no column (empty / unknown key only) or one column, compared with the default configuration, '
         'equivalence cases (the same table under 8 row-index forms; the model restored via from_dict (both routes) / '
         'save-load / get_instance clone / fitted twice; histories fit(A), sample, fit(B), sample — all bitwise equal to a '
         'fresh model under the same seed, labels of the same TYPE and order), '
@@ -96,7 +100,8 @@ FQN = {'GaussianUnivariate': 'copulas.univariate.gaussian.GaussianUnivariate',
        'StudentTUnivariate': 'copulas.univariate.student_t.StudentTUnivariate',
        'LogLaplace': 'copulas.univariate.log_laplace.LogLaplace',
        'TruncatedGaussian': 'copulas.univariate.truncated_gaussian.TruncatedGaussian',
-       'Univariate': 'copulas.univariate.base.Univariate'}
+       'Univariate': 'copulas.univariate.base.Univariate',
+       'PositiveOnlyGaussian': __name__ + '.PositiveOnlyGaussian'}
 KIND2CLASS = {'gaussian': 'GaussianUnivariate', 'beta': 'BetaUnivariate', 'gamma': 'GammaUnivariate',
               'uniform': 'UniformUnivariate', 'student_t': 'StudentTUnivariate', 'log_laplace': 'LogLaplace',
               'truncated': 'TruncatedGaussian', 'kde': 'GaussianKDE', 'ints': 'GaussianKDE', 'const': 'GaussianUnivariate',
@@ -113,8 +118,33 @@ DELTA = 1e-13          # false-alarm probability of ONE statistical test (<= 1e4
 N_BIG = 20000
 
 
+class PositiveOnlyGaussian:
+    """a marginal whose fit REFUSES a column with non-positive values (forces GaussianMultivariate's fall-back path) and
+    is a plain Gaussian otherwise.  Deliberately NOT a subclass of copulas' Univariate: a subclass would join the
+    candidates of the default selection for the rest of the process."""
+
+    def __init__(self):
+        self._inner = None
+
+    def fit(self, X):
+        if np.min(X) <= 0:
+            raise ValueError('PositiveOnlyGaussian needs positive data')
+        from copulas.univariate import GaussianUnivariate
+        inner = GaussianUnivariate()
+        inner.fit(X)
+        self._inner = inner
+
+    def __getattr__(self, name):
+        inner = self.__dict__.get('_inner')
+        if inner is None or name.startswith('__'):
+            raise AttributeError(name)
+        return getattr(inner, name)
+
+
 def _cls(name):
     import copulas.univariate as U
+    if name == 'PositiveOnlyGaussian':
+        return PositiveOnlyGaussian
     return getattr(U, name)
 
 
@@ -268,6 +298,8 @@ def gen_config(rng, tab, quick):
         return rng.choice(pool)
 
     r = rng.random()
+    if r < 0.02:
+        return ['dict', []]                                # the EMPTY per-column dict: every column -> default selection
     if r < (0.06 if quick else 0.10):
         return ['default']
     if r < 0.50:
@@ -882,6 +914,8 @@ def empirical_law_problems(case, unis, cols):
         # matched = the configured family IS the generating one, for the laws whose scipy MLE is dependable
         # (LogLaplace / Beta / Student t / truncated-normal fits with free location can be far off even on their
         # own data: a fit-quality matter, property C04, not this oracle)
+        if j < len(unis) and type(unis[j]).__name__ == 'GaussianUnivariate' and rq != 'GaussianUnivariate':
+            rq = 'GaussianUnivariate'                  # the Gaussian fall-back: judged as a Gaussian fit of ITS column
         matched = kind in ('gaussian', 'uniform', 'gamma') + NEAR and KIND2CLASS[kind] == rq
         eligible = rq in ROBUST or rq == 'Univariate' or matched
         if not eligible:
@@ -1275,6 +1309,16 @@ def search(ctx, deep):
     nr7 = ctx.nprng('search', 'selection')
     for t in range((2 if quick else 4) if deep else 1):
         selection_oracle(ctx, selection_case(rng7, nr7, ordered=(t % 2 == 0)), stats)
+    # several columns on the Gaussian FALL-BACK path next to normally fitted ones; the empty per-column dict
+    rng9 = ctx.rng('search', 'fallback')
+    nr9 = ctx.nprng('search', 'fallback')
+    for t in range((4 if quick else 10) if deep else 1):
+        stats['fallback_tables'] = stats.get('fallback_tables', 0) + 1
+        oracle_case(ctx, fallback_case(rng9, nr9), stats, schema_ns=[rng9.randint(2, 200)], big=True, light=True)
+        for shape in (['empty'] if not deep else ['empty', 'unknown-key-only', 'one-named']):
+            ec = empty_dict_case(rng9, nr9, shape if deep else rng9.choice(['empty', 'empty', 'unknown-key-only', 'one-named']))
+            oracle_case(ctx, ec, stats, schema_ns=[rng9.randint(2, 60)], big=False)
+            unnamed_columns_oracle(ctx, ec, stats)
     # instances with options (weighted KDE, bw_method, sample_size, TruncatedGaussian bounds)
     rng6 = ctx.rng('search', 'kde-options')
     nr6 = ctx.nprng('search', 'kde-options')
@@ -1741,6 +1785,76 @@ def equivalence_oracle(ctx, case, other_same, other_diff, stats, n=37, forms=Non
                           'ndarray': bool(other.get('ndarray')), 'kinds': other['kinds']})
 
 
+def fallback_case(rng, nr):
+    """2-3 columns whose requested marginal RAISES in fit (so they take the Gaussian fall-back) mixed with normally
+    fitted columns, on visibly different locations / scales.  Two routes: a class refusing non-positive columns for the
+    whole table, or a per-column dict with GaussianKDE instances whose weights have the wrong length."""
+    n = rng.choice([80, 200, 400])
+    k = rng.choice([4, 5])
+    R, L = random_correlation(rng, nr, k)
+    Z = nr.randn(n, k) @ L.T
+    nfall = rng.choice([2, 3])
+    fall = set(rng.sample(range(k), nfall))
+    route = rng.choice(['class-refuses', 'kde-bad-weights'])
+    cols, kinds, descr = [], [], []
+    locs = rng.sample([-50.0, -3.0, 0.0, 12.0, 400.0, -1000.0], k)
+    for j in range(k):
+        sc = rng.choice([0.5, 2.0, 30.0])
+        if j in fall:
+            x = locs[j] + sc * Z[:, j]
+            if route == 'class-refuses' and np.min(x) > 0:
+                x = x - np.min(x) - 0.5 * sc                      # make sure the column has non-positive values
+            kinds.append('gaussian')
+            descr.append(f'norm({locs[j]},{sc}) [falls back]')
+        else:
+            x = 5.0 * sc + sc * np.exp(0.4 * Z[:, j])              # strictly positive
+            kinds.append('gamma')
+            descr.append('positive lognormal-ish')
+        cols.append(np.asarray(x, dtype=float))
+    labels = rng.sample(['price', 'delta', 'weight', 'balance', 'x', 4, 9, 17, 23], k)
+    if not all(isinstance(x, int) for x in labels):
+        labels = [str(x) for x in labels]
+    if route == 'class-refuses':
+        spec = [rng.choice(['class', 'str', 'inst']), 'PositiveOnlyGaussian']
+    else:
+        items = []
+        for j, lab in enumerate(labels):
+            if j in fall:
+                items.append([enc_label(lab), ['inst', 'GaussianKDE', {'weights': [1.0] * 10}]])
+            else:
+                items.append([enc_label(lab), [rng.choice(['class', 'str', 'inst']), rng.choice(['GaussianUnivariate', 'GammaUnivariate'])]])
+        spec = ['dict', shape_dict(rng, items, rng.choice(['full-in-order', 'full-reversed', 'full-shuffled']))]
+    return {'labels': labels, 'cols': [c.tolist() for c in cols], 'kinds': kinds, 'descr': descr, 'config': spec,
+            'seed': ['int', rng.randrange(2 ** 31)], 'ndarray': False, 'dtypes': ['float'] * k, 'row_order': 'as-drawn',
+            'row_index': rng.choice(['default', 'strings'])}
+
+
+def empty_dict_case(rng, nr, shape=None):
+    """a per-column dict that names NO column of the table (empty, or only an unknown key) or only one: every unnamed
+    column must get the default selection, exactly as under the default configuration; non-Gaussian columns."""
+    n = rng.choice([60, 150])
+    k = rng.choice([2, 3])
+    R, L = random_correlation(rng, nr, k)
+    Z = nr.randn(n, k) @ L.T
+    kinds = [rng.choice(['gamma', 'uniform', 'kde']) for _ in range(k)]
+    cols, descr = [], []
+    for j, kd in enumerate(kinds):
+        q, dsc = marginal(rng, kd)
+        cols.append(np.asarray(q(Z[:, j]), dtype=float))
+        descr.append(dsc)
+    labels = rng.sample(['a', 'b', 'c', 'd'], k)
+    shape = shape or rng.choice(['empty', 'unknown-key-only', 'one-named'])
+    if shape == 'empty':
+        spec = ['dict', []]
+    elif shape == 'unknown-key-only':
+        spec = ['dict', [['s:' + 'nope'.encode().hex(), ['class', 'UniformUnivariate']]]]
+    else:
+        spec = ['dict', [[enc_label(labels[-1]), [rng.choice(['class', 'str', 'inst']), 'GaussianUnivariate']]]]
+    return {'labels': labels, 'cols': [c.tolist() for c in cols], 'kinds': kinds, 'descr': descr, 'config': spec,
+            'seed': ['int', rng.randrange(2 ** 31)], 'ndarray': False, 'dtypes': ['float'] * k, 'row_order': 'as-drawn',
+            'row_index': 'default'}
+
+
 def kde_options_case(rng, nr):
     """ordinary-scale columns configured with INSTANCES carrying options: GaussianKDE(weights=non-uniform),
     GaussianKDE(bw_method=...), GaussianKDE(sample_size=...), TruncatedGaussian(minimum, maximum); the first column
@@ -2014,6 +2128,101 @@ def tail_hunt(ctx, case, model, stats, budget):
                        'normal draws are extreme', f'{ep}:schema-{what}')
 
 
+def fit_state_problems(case, model):
+    """what `fit` must leave behind, per column (-> list of (class suffix, column, observed, required)):
+    * the univariates are DISTINCT objects;
+    * a column whose fitted univariate is not of the requested class took the Gaussian fall-back: that is legitimate
+      only if the requested marginal really raises on that column, and the fall-back must be fitted on THAT column
+      (loc = mean, scale = std of the column);
+    * a column without a configured marginal (default / key missing / empty dict) is modelled by the default selection."""
+    from copulas.utils import get_instance
+    out = []
+    unis = list(model.univariates)
+    d = len(case['labels'])
+    if len(unis) != d:
+        return out
+    ids = [id(u) for u in unis]
+    if len(set(ids)) != d:
+        shared = [[j for j in range(d) if ids[j] == i_] for i_ in set(ids) if ids.count(i_) > 1]
+        out.append(('univariates-share-object', shared[0][0], {'columns_sharing_one_univariate_object': shared,
+                                                            'types': [type(u).__name__ for u in unis]},
+                    'model.univariates holds one fitted object per column'))
+    requested = requested_classes(case)
+    cfg = build_config(case['config'])
+    for j in range(d):
+        rq, got = requested[j], type(unis[j]).__name__
+        if rq is None or got == rq:
+            continue
+        tr = np.asarray(case['cols'][j], dtype=float)
+        if got != 'GaussianUnivariate':
+            out.append(('wrong-marginal-class', j, {'requested': rq, 'fitted': got}, 'the configured marginal class is fitted'))
+            continue
+        # fell back: was it needed?
+        if cfg is None:
+            dist = _cls('Univariate')
+        elif isinstance(cfg, dict):
+            dist = cfg.get(case['labels'][j], _cls('Univariate'))
+        else:
+            dist = cfg
+        state = np.random.get_state()
+        try:
+            np.random.seed(case['seed'][1] % (2 ** 32))
+            try:
+                get_instance(dist).fit(pd.Series(case['cols'][j]))
+                raised = None
+            except Exception as e:  # noqa
+                raised = repr(e)[:120]
+        finally:
+            np.random.set_state(state)
+        if raised is None:
+            out.append(('unneeded-fallback', j, {'requested': rq, 'fitted': got,
+                                                 'note': 'the requested marginal fits this column without raising'},
+                        'the configured (or default-selected) marginal is used when its fit succeeds'))
+        if len(np.unique(tr)) > 1:
+            prm = getattr(unis[j], '_params', None) or {}
+            loc, scale = prm.get('loc'), prm.get('scale')
+            m_, s_ = float(np.mean(tr)), float(np.std(tr))
+            ok = loc is not None and scale is not None and abs(loc - m_) <= 1e-9 * max(1.0, abs(m_), s_) and \
+                abs(scale - s_) <= 1e-9 * max(abs(s_), 1e-300)
+            if not ok:
+                out.append(('fallback-marginal-not-of-its-column', j,
+                            {'fallback_loc_scale': [None if loc is None else float(loc), None if scale is None else float(scale)],
+                             'column_mean_std': [m_, s_], 'requested': rq, 'raised': raised},
+                            'the Gaussian fall-back of a column is fitted on that column: loc = mean, scale = std'))
+    return out
+
+
+def unnamed_columns_oracle(ctx, case, stats):
+    """reference = the model fitted with the DEFAULT `distribution` on the same table (same seed): for every column the
+    dict does not name, the fitted univariate has the same type and the same to_dict()."""
+    ep = 'GaussianMultivariate.fit'
+    try:
+        model, _ = fit_model(case)
+        ref, _ = fit_model(dict(case, config=['default']))
+    except Exception as e:  # noqa
+        ctx.fail_input(ep, case_input(case), 'raised ' + repr(e)[:300], 'fit succeeds', ep + ':raises')
+        return
+    named = {k_ for k_, _ in dict_items(case['config'])} if case['config'][0] == 'dict' else set()
+    for j, lab in enumerate(case['labels']):
+        if enc_label(lab) in named or j >= len(model.univariates):
+            continue
+        stats['unnamed_columns_checked'] = stats.get('unnamed_columns_checked', 0) + 1
+        u, r = model.univariates[j], ref.univariates[j]
+        tu = type(u).__name__ + '>' + type(getattr(u, '_instance', None)).__name__
+        tr_ = type(r).__name__ + '>' + type(getattr(r, '_instance', None)).__name__
+        try:
+            same = tu == tr_ and u.to_dict() == r.to_dict()
+        except Exception as e:  # noqa
+            same = False
+        if not same:
+            ctx.fail_input(ep, case_input(case, column=j, experiment='unnamed-columns'),
+                           {'fitted': tu, 'under_default_configuration': tr_,
+                            'fitted_params': {k_: v_ for k_, v_ in (getattr(u, '_params', None) or {}).items() if k_ != 'dataset'}},
+                           'a column the per-column dict does not name is modelled exactly as under the default '
+                           'configuration (same selected family, same parameters)',
+                           ep + ':unnamed-column-not-default-selected')
+
+
 def columns_in_table_order(ctx, case, model, n=None):
     """`model.columns` (hence univariates / correlation labels / sample columns) must be the table's column order; the
     index-based oracles below are only meaningful then.  -> bool"""
@@ -2058,6 +2267,12 @@ def oracle_case(ctx, case, stats, schema_ns, big, only=None, hunt=0, light=False
     stats['tables'] += 1
     d = len(case['labels'])
     unis = list(model.univariates)
+    if [enc_label(c) for c in (model.columns or [])] == [enc_label(x) for x in case['labels']]:
+        for what, j, obs, req in fit_state_problems(case, model):
+            ctx.fail_input('GaussianMultivariate.fit', case_input(case, column=j, n=(schema_ns[0] if schema_ns else N_BIG)),
+                           obs, req, 'GaussianMultivariate.fit:' + what)
+        stats['fallback_columns'] = stats.get('fallback_columns', 0) + sum(
+            1 for rq, u in zip(requested_classes(case), unis) if rq is not None and type(u).__name__ != rq)
     first = True
     for n in schema_ns:
         try:
@@ -2306,6 +2521,8 @@ def replay(ctx, payload):
         dependence_oracle(ctx, case_from_input(inp), stats)
     elif inp.get('experiment') == 'selection':
         selection_oracle(ctx, case_from_input(inp), stats)
+    elif inp.get('experiment') == 'unnamed-columns':
+        unnamed_columns_oracle(ctx, case_from_input(inp), stats)
     elif inp.get('experiment') == 'equivalence':
         other = None
         if inp.get('other'):
